@@ -329,6 +329,11 @@ class Inhabiter:
                 if repr(a[0]) not in ("int", "str", "float", "bool"):
                     return None
                 m = f"mapping<{a[0]!r}>()"
+                if rng.random() < 0.15:
+                    # an empty mapping of the right type (one entry set and taken away again)
+                    kx, vx = self.gen(a[0], 0), self.gen(a[1], depth - 1)
+                    if kx is not None and vx is not None:
+                        return m + f".set({kx}, {vx}).discard({kx})"
                 n = rng.choice([1, 2, 3])
                 for _ in range(n):
                     kx, vx = self.gen(a[0], 0), self.gen(a[1], depth - 1)
